@@ -170,6 +170,19 @@ func c19Once(c *mon.Ctx) {
 			_ = bits
 			c19Relations(c, nn, []net.IP{n.IP, lastAddr(&n)}, "super-nets of table entry "+n.String())
 		}
+		// single-address networks at the first, last and seeded interior addresses of every table entry:
+		// the network answer and the address answer must be the same (and 4-byte / 16-byte forms agree)
+		pts := []net.IP{normIP(n.IP), normIP(lastAddr(&n))}
+		for k := 0; k < c.Pick(60, 2000); k++ {
+			pts = append(pts, normIP(randIn(rng, &n)))
+		}
+		for _, a := range pts {
+			c19Relations(c, netOf(a, 8*len(a)), []net.IP{a}, "single-address network inside table entry "+n.String())
+			c.R.Count("address_checks", 1)
+			if len(a) == 4 && util.IsIANAReserved(a) != util.IsIANAReserved(a.To16()) {
+				c.V("byte-form-disagrees|table", fmt.Sprintf("%s: 4-byte and IPv4-mapped forms are classified differently", a), "", nil, nil)
+			}
+		}
 	}
 }
 
